@@ -393,7 +393,7 @@ func checkCtxNil(c *core.Ctx) {
 						continue // one finding per function and field
 					}
 					key := fmt.Sprintf("%s|%s", core.FnName(fn), f.Name())
-					c.Report("sim.ctxnil", key, deref.Pos(), fmt.Sprintf("%s dereferences ctx.%s, which restart() resets to nil and which is not stored (or tested) on every path that leads here — the state machine reaches this function from several states: a request that arrives without it makes the simulator crash with a nil pointer dereference instead of reporting an error", core.FnName(fn), f.Name()))
+					c.Report("sim.ctxnil", key, deref.Pos(), fmt.Sprintf("%s dereferences ctx.%s, which can be nil (reset by restart() or not yet created) and is not stored (or tested) on every path that leads here — the state machine reaches this function from several states: a request that arrives without it makes the simulator crash with a nil pointer dereference instead of reporting an error", core.FnName(fn), f.Name()))
 				}
 			}
 		}
